@@ -26,6 +26,8 @@ CONSTANTS
     Lens,              \* message lengths explored
     Atts,              \* numbers of user attachments explored
     MaxFaultAttempts,  \* ENOBUFS may hit attempts 1..MaxFaultAttempts
+    HardAt,            \* 0: never; k: transmission attempt number k fails with an error that is not retried
+                       \* (EINTR, EIO, ...): the send gives up there, whatever its size
     Variant            \* "code" = the implementation; other values are deliberately wrong
                        \* designs used to show that the invariants are not vacuous
 
@@ -72,7 +74,8 @@ Init ==
 (* Sender *)
 
 \* Whether this attempt is hit by ENOBUFS: free for the first MaxFaultAttempts attempts.
-FaultChoices == IF att < MaxFaultAttempts THEN {TRUE, FALSE} ELSE {FALSE}
+IsHard == HardAt # 0 /\ att + 1 = HardAt
+FaultChoices == IF IsHard THEN {TRUE} ELSE IF att < MaxFaultAttempts THEN {TRUE, FALSE} ELSE {FALSE}
 
 \* The refusal the property demands (absent in Variant "nocap", which is the code before the fix).
 Overfull(extra) == Variant # "nocap" /\ natt + extra > CmsgCap
@@ -109,7 +112,7 @@ Refuse ==   \* the descriptor-count check (the C15 repair)
 
 TrySingle ==
     /\ len <= MaxFrag /\ ~Overfull(0)
-    /\ \E f \in FaultChoices : TrySingleAt(f, ~(len > MinRetry))
+    /\ \E f \in FaultChoices : TrySingleAt(f, IsHard \/ ~(len > MinRetry))
 
 TooBig ==
     /\ spc = "start" /\ len > MaxFrag
@@ -149,7 +152,7 @@ ModelEnd == IF pos = 0
               ELSE Min(pos + FragSize(sb), len)
 
 SendFragment ==
-    \E f \in FaultChoices : SendFragmentAt(ModelEnd, f, ~(ModelEnd - pos > MinRetry))
+    \E f \in FaultChoices : SendFragmentAt(ModelEnd, f, IsHard \/ ~(ModelEnd - pos > MinRetry))
 
 \* loop exit; dedicated_tx and dedicated_rx are dropped
 SendDone ==
